@@ -174,8 +174,10 @@ def replace_at(doc, path, junk):
 
 def run(ctx: C.Ctx):
     from dataclass_wizard import fromdict
+    from harness.props import c05_ext
     rng = ctx.rng
     gen.SUBS = False
+    c05_ext.OPT_CASES[:] = []
     ctx.rule = ('random class models (as C01, plus NoneType / unions of any members) with a well-typed document in which one '
                 'random position (root included) is replaced by junk (null, bools, huge / nan / inf numbers, strings that look like '
                 'numbers / dates, wrong container kinds, dicts with a stray tag); fromdict either raises or returns an object accepted '
@@ -217,6 +219,7 @@ def run(ctx: C.Ctx):
             case = {'ty': ty, 'doc': repr(bad)[:600], 'path': repr(path), 'junk': repr(j)}
             ctx.seen('junk', case)
             before = copy.deepcopy(bad)
+            c05_ext.collect(ctx, 'junk', case, ty, before)
             out = load_outcome(lambda: fromdict(built.root, bad))
             src = dict(src=built.source)
             if not strict_eq(bad, before):
@@ -261,6 +264,7 @@ def near_miss(ctx, base_index, reqs, pend):
     falsy values of a non-member type in a Union, wrong container kind."""
     from dataclass_wizard import fromdict
     from harness.model import T
+    from harness.props import c05_ext
     rng = ctx.rng
     n = ctx.quick(700, 8000)
     for j in range(n):
@@ -300,6 +304,7 @@ def near_miss(ctx, base_index, reqs, pend):
             case = {'ty': ty, 'doc': repr(bad), 'near_miss': kind}
             ctx.seen('near-miss:' + kind, case)
             before = copy.deepcopy(bad)
+            c05_ext.collect(ctx, 'near-miss', case, ty, before)
             out = load_outcome(lambda: fromdict(built.root, bad))
             src = dict(src=built.source)
             if not strict_eq(bad, before):
